@@ -1,15 +1,19 @@
 package c14
 
 import (
+	"context"
 	"fmt"
 	"os"
 	"path/filepath"
+	"sync"
 	"testing"
 	"time"
 
 	"pgregory.net/rapid"
 
+	"tunnox-core/internal/core/storage/hybrid"
 	jsonstorage "tunnox-core/internal/core/storage/json"
+	"tunnox-core/internal/core/storage/memory"
 	"tunnox-core/verif/vkit"
 )
 
@@ -175,4 +179,78 @@ func checkAutoSave(t vkit.TB, c AutoSaveCase) {
 		return
 	}
 	vkit.Case("json-autosave", overlap, fmt.Sprint(len(c.Ops), c.Ops))
+}
+
+// ---------------------------------------------------------------------------
+// TestCacheTierSweepRace — the node-local memory tier's expiry sweep against writes that revive expired,
+// not yet swept keys. For keys that live in the cache tier only (runtime keys; every key when persistence
+// is off) a write that has returned must stay readable: the sweep may remove what HAS expired, never what
+// was just written. Real memory.Storage under the hybrid facade; the writer and the sweep run in parallel.
+
+type SweepCase struct {
+	SweepRace bool `json:"cache_sweep_race"`
+	Keys      int  `json:"keys"`
+	Rounds    int  `json:"rounds"`
+}
+
+func runSweepRace(c SweepCase) (key, detail string) {
+	mem := memory.New(context.Background())
+	hc := hybrid.DefaultConfig()
+	hc.EnablePersistent = false
+	h := hybrid.NewWithSharedCache(context.Background(), mem, nil, nil, hc)
+	defer h.Close()
+	for round := 0; round < c.Rounds; round++ {
+		names := make([]string, c.Keys)
+		for i := range names {
+			names[i] = fmt.Sprintf("tunnox:runtime:sweep:%d:%d", round, i)
+			if err := h.Set(names[i], "old", time.Millisecond); err != nil {
+				return "C14/harness/sweep-race", err.Error()
+			}
+		}
+		time.Sleep(3 * time.Millisecond) // all expired, none swept
+		var wg sync.WaitGroup
+		wg.Add(2)
+		start := make(chan struct{})
+		go func() {
+			defer wg.Done()
+			<-start
+			mem.CleanupExpired()
+		}()
+		var werr error
+		go func() {
+			defer wg.Done()
+			<-start
+			for _, k := range names {
+				if err := h.Set(k, "new", time.Hour); err != nil {
+					werr = err
+					return
+				}
+			}
+		}()
+		close(start)
+		wg.Wait()
+		if werr != nil {
+			return "C14/harness/sweep-race", werr.Error()
+		}
+		for _, k := range names {
+			v, err := h.Get(k)
+			if err != nil || fmt.Sprint(v) != "new" {
+				return "C14/cache-tier/acknowledged-write-removed-by-expiry-sweep",
+					fmt.Sprintf("key %s had expired (ttl 1 ms, 3 ms ago) and was written again with ttl 1h (Set returned nil) while the expiry sweep was running; afterwards Get returns %v (err %v)", k, v, err)
+			}
+		}
+		mem.CleanupExpired()
+	}
+	return "", ""
+}
+
+func TestCacheTierSweepRace(t *testing.T) {
+	rounds := vkit.Pick(40, 400)
+	c := SweepCase{SweepRace: true, Keys: 400, Rounds: rounds}
+	if key, detail := runSweepRace(c); key != "" {
+		vkit.Violation(t, key, detail, c)
+		return
+	}
+	vkit.Case("cache-sweep-race", true, fmt.Sprint(vkit.Shard()))
+	vkit.AddExtra("sweep_race_rounds", int64(rounds))
 }
